@@ -188,7 +188,8 @@ InstrRoundTrip == Single /\ ~HasPh(prog[1]) /\ (JudgeAmbiguousDelay \/ ~DelayAmb
 InstrPrintStable == Single /\ ~HasPh(prog[1]) /\ ~Api => PrintIsStable(prog[1])
 ParseNormalIsFixpoint == Single /\ ~Api => CanonI(prog[1]) = prog[1]
 Placeholders == Single => PlaceholderIffFails(prog[1])
-ProgramLevel == phase = "done" /\ ~Api => ProgramRoundTrip(prog)
+\* (for a single instruction InstrRoundTrip and InstrPrintStable say the same)
+ProgramLevel == phase = "done" /\ ~Api /\ Len(prog) >= 2 => ProgramRoundTrip(prog)
 ListingFixpoint == phase = "done" => ListingIsFixpoint(prog)
 GateParamValue == Single /\ prog[1].k = "Gate" /\ prog[1].params # <<>> =>
                     Val(CanonE(prog[1].params[1])) = Val(prog[1].params[1])
